@@ -32,7 +32,9 @@ func (c *Conversation) receiveUnit(m ValidMessage, forgetFragments bool) (plain 
 		shouldForgetFragment = false
 		c.fragmentationContext, err = c.receiveFragment(c.fragmentationContext, message)
 		if fragmentsFinished(c.fragmentationContext) {
-			return c.withInjectionsPlain(c.receiveUnit(c.fragmentationContext.frag, false))
+			assembled := c.fragmentationContext.frag
+			c.fragmentationContext = forgetFragment()
+			return c.withInjectionsPlain(c.receiveUnit(assembled, false))
 		}
 	case msgGuessUnknown:
 		c.messageEvent(MessageEventReceivedMessageUnrecognized)
